@@ -37,7 +37,8 @@ class CHECK(Check):
             "in the encoding x source/destination {path in a real temporary directory, str/bytes content, caller-owned buffer}: "
             "File.read(path) == File.read(content); bytes on disk after write(path) decoded with the declared encoding equal the "
             "in-memory output (binary: identical bytes); read(path written) == read(memory output); open() is wrapped to record "
-            "mode and encoding. non-trivial = content contains a non-ASCII character; distinct = hash")
+            "mode and encoding. non-trivial = content contains a non-ASCII character; distinct = hash"
+            " Later additions: files of 450-2500 records (beyond the I/O buffers, odd record widths), contents that name an existing file, destinations pre-filled with longer stale content, byte-exact comparison with the declared encoder, codec model tie (malformed input).")
     not_exhibited = ["OS path resolution (the theorems take the file system as an arbitrary function)",
                      "error handlers other than strict, encodings other than the four of the property"]
     assumptions = ["CPython's utf-8/latin-1/cp1252/utf-16 codecs and universal-newline translation are modelled (Py/PyCodec.v), "
